@@ -228,6 +228,20 @@ fn laws_case(rng: &mut Rng, rep: &mut Report) -> (u64, bool, serde_json::Value, 
                 }
                 desc = json!({"law": "add/sub", "a": a.hexdigest(), "b": b.hexdigest(), "c": c.hexdigest(), "noncanonical_input": anc});
                 let ab = a + b;
+                // the published definition reduces every column modulo its prime: whatever went into
+                // from_digest, a value that comes out of the API shows reduced columns, and `==`
+                // agrees with equality of the values (so two tools holding the same multiset agree).
+                for (nm, x) in [("a", &a), ("b", &b), ("c", &c), ("a+b", &ab), ("a-b", &(a - b))] {
+                    if !is_canonical(x) {
+                        return fail("digest-column-not-reduced", format!("{nm} = {x:?} shows a column >= its prime"));
+                    }
+                }
+                for (x, y) in [(&a, &b), (&ab, &(b + a)), (&(ab - b), &a), (&(a - a), &Setsum::default())] {
+                    if (canon(x) == canon(y)) != (x == y) {
+                        return fail("eq-disagrees-with-value", format!("{x:?} vs {y:?}: values equal = {}, == gives {}", canon(x) == canon(y), x == y));
+                    }
+                }
+                rep.count("law.reduced_columns", 1);
                 if canon(&(ab - b)) != canon(&a) {
                     return fail(if anc { "sub-not-inverse-noncanonical" } else { "sub-not-inverse" },
                         format!("({a:?} + {b:?}) - {b:?} = {:?}", ab - b));
